@@ -153,6 +153,10 @@ class DocGen:
         for mname in self.rs.marks:
             if self.rs.allows_mark(parent, mname) and self.rnd.random() < p:
                 out = self.rs.ref_add(self.mark(mname), out)
+                # a type that does not exclude itself may occur twice with different attrs
+                if self.rs.marks[mname].attrs and not self.rs.excludes(mname, mname) and self.rnd.random() < 0.4:
+                    m = self.rs.marks[mname]
+                    out = self.rs.ref_add((mname, akey(self.attrs(m.attrs, mname, p_override=1.0))), out)
         return out
 
     def text(self):
